@@ -1,8 +1,8 @@
 //! C15: GdsFloat64::encode / decode on raw bit patterns.
 use gds21::GdsFloat64;
-use serde_json::{json, Value};
+use l21h::{json, Value};
 
-pub fn run(case: &Value) -> Value {
+fn run(case: &Value) -> Value {
     let op = case["op"].as_str().unwrap_or("");
     let a = case["a"].as_u64().expect("a: u64");
     match op {
@@ -23,4 +23,8 @@ pub fn run(case: &Value) -> Value {
         }
         _ => json!({"harness_error": "bad op"}),
     }
+}
+
+fn main() {
+    l21h::main_loop(run);
 }
